@@ -17,7 +17,11 @@
 (* invariant TypeOK checks them to be well formed.  A geometry is either   *)
 (* a set of lattice cells {xs, ys, cells} or, for requests recorded in an  *)
 (* oblique world (polar stereographic grid, EPSG:4326 areas), a raster     *)
-(* {cls, pt, grid} made for this request (see Auth).  Batch acceptance by  *)
+(* {cls, pt, grid} made for this request (see Auth).  In a world whose WMS  *)
+(* service declares an extent for the request SRS (constant Ext) a GetMap  *)
+(* that reaches beyond the extent is run through both variants of the      *)
+(* sub-image geometry (exact in ExactChoices; register 6: accepted by the  *)
+(* reference without displacement).  Batch acceptance by                   *)
 (* POSTCONDITION; registers 4 / 5 tell which part of the property a bad    *)
 (* observation violates (content outside / content missing inside).        *)
 (***************************************************************************)
@@ -27,7 +31,7 @@ Batch == JsonDeserialize(IOEnv.TRACE_FILE)
 N == Len(Batch)
 
 VARIABLES tid, obs
-tvars == <<req, cb, pc, actual, authz, cov, out, path, geo, combine, tid, obs>>
+tvars == <<req, cb, pc, actual, authz, cov, out, path, geo, combine, exact, tid, obs>>
 
 SetOf(s) == {s[i] : i \in 1 .. Len(s)}
 Seq2(s) == <<s[1], s[2]>>
@@ -97,6 +101,7 @@ TraceInit ==
     /\ req = ReqOf(B[t].req) /\ cb = CbOf(B[t].cb)
     /\ pc = "start" /\ actual = <<>> /\ authz = [all |-> FALSE, lims |-> <<>>] /\ cov = {} /\ out = NoOut /\ path = <<>>
     /\ geo = GeoOf(B[t].geoms) /\ combine \in CombineChoices
+    /\ exact \in (IF Clipped(ReqOf(B[t].req)) THEN ExactChoices ELSE {FALSE})
 
 \* the property is evaluated on the observation in the first step (req and cb are state by then)
 TraceNext ==
@@ -105,20 +110,23 @@ TraceNext ==
   /\ (pc = "start" /\ ~ObsOK(obs)) => TLCSet(2, TLCGet(2) \cup {tid})
   /\ (pc = "start" /\ obs.status = 200 /\ ~ClippedOutsideOn(ObsOut(obs))) => TLCSet(4, TLCGet(4) \cup {tid})
   /\ (pc = "start" /\ obs.status = 200 /\ ~InsideOK(obs)) => TLCSet(5, TLCGet(5) \cup {tid})
-  /\ (pc' = "done" /\ Match(obs, out')) => TLCSet(IF combine THEN 3 ELSE 1, TLCGet(IF combine THEN 3 ELSE 1) \cup {tid})
+  /\ (pc' = "done" /\ Match(obs, out')) =>
+        LET k == IF exact THEN 6 ELSE IF combine THEN 3 ELSE 1 IN TLCSet(k, TLCGet(k) \cup {tid})
 
 TraceSpec == TraceInit /\ [][TraceNext]_tvars
 
-ASSUME TLCSet(1, {}) /\ TLCSet(2, {}) /\ TLCSet(3, {}) /\ TLCSet(4, {}) /\ TLCSet(5, {})
+ASSUME TLCSet(1, {}) /\ TLCSet(2, {}) /\ TLCSet(3, {}) /\ TLCSet(4, {}) /\ TLCSet(5, {}) /\ TLCSet(6, {})
 
 \* register 1: events accepted by the model of the code as found, 3: by the model with both limits applied,
+\* 6: by the reference model whose sub-image is not displaced (GetMap reaching beyond the SRS extent only),
 \* 2: events whose observation violates the property (4: content outside an area, 5: content missing well inside)
 TraceAccepted ==
   /\ PrintT(<<"accepted", TLCGet(1)>>)
   /\ PrintT(<<"accepted_combined", TLCGet(3)>>)
+  /\ PrintT(<<"accepted_exact", TLCGet(6)>>)
   /\ PrintT(<<"obsbad", TLCGet(2)>>)
   /\ PrintT(<<"obsbad_outside", TLCGet(4)>>)
   /\ PrintT(<<"obsbad_inside", TLCGet(5)>>)
-  /\ TLCGet(1) \cup TLCGet(3) = 1 .. N
+  /\ TLCGet(1) \cup TLCGet(3) \cup TLCGet(6) = 1 .. N
   /\ TLCGet(2) = {}
 =============================================================================
